@@ -265,6 +265,9 @@ func runResetTwin(cfg Config, prof *Profile, ops []Op, a *Sim) *Violation {
 	for _, o := range a.resetSnap.observers {
 		sp := o.Spec
 		b.opNewObserver(&Op{K: KNewObserver, Obs: &sp, Scr: o.Script, N: 1})
+		if o.Invalid && len(b.observers) > 0 {
+			b.observers[len(b.observers)-1].Invalid = true
+		}
 	}
 	for i := k + 1; i < len(ops) && !b.fatal; i++ {
 		b.OpIdx = i
